@@ -54,7 +54,8 @@ META = {
             "updated in place between steps. PASS 3: ctor stream (every kernel x parameters on both sides of each documented constructor "
             "bound x dtype -> Spec.ctorOk / Spec.construct); Tolerant with a/|b| in {50(1+2^-40), 51, 64, 200, 700} and u on both sides of "
             "softplus' threshold 50 against the code-level model tolerantC; every optimiser step additionally against c09.step = the model's "
-            "own lossTotal / stepJtR (selection glue, all residual tensors, flat layout inside the model).",
+            "own lossTotal / stepJtR (selection glue, all residual tensors, flat layout inside the model). PASS 10: every GN step additionally "
+            "against the model's stepJtJ (stacked J'^T J' vs the normal matrix A^T A of the system handed to the solver).",
     "trusted": ["torch autograd of the kernel's forward (rho', rho'') is an external contract: the model uses closed forms of "
                 "rho', rho'' that are *proved* (HasDerivAt) to be the derivatives of the modelled forward; the fast/triggs "
                 "streams compare the real autograd-based outputs against them on every run",
@@ -154,14 +155,14 @@ class PolyKernel(nn.Module):
 
     def __init__(self, c1, c2, c3):
         super().__init__()
-        self.c = (c1, c2, c3)
-        self.armed = False
+        self.vfh09_c = (c1, c2, c3)
+        self.vfh09_armed = False
 
     def forward(self, input):
-        if getattr(self, "armed", False):
+        if getattr(self, "vfh09_armed", False):
             raise RuntimeError("user kernel callback raises (armed by the harness)")
         x = input
-        c1, c2, c3 = self.c
+        c1, c2, c3 = self.vfh09_c
         return c1 * x + c2 * (x * x) + c3 * (x * x * x)
 
 
@@ -170,13 +171,13 @@ class LinKernel(nn.Module):
 
     def __init__(self, c):
         super().__init__()
-        self.c = c
-        self.armed = False
+        self.vfh09_c = c
+        self.vfh09_armed = False
 
     def forward(self, input):
-        if getattr(self, "armed", False):
+        if getattr(self, "vfh09_armed", False):
             raise RuntimeError("user kernel callback raises (armed by the harness)")
-        return self.c * input
+        return self.vfh09_c * input
 
 
 USER_FORMS = ["module", "sub:Scale", "sub:Huber", "sub:Cauchy", "sub:Tolerant", "sub:PseudoHuber", "sub:SoftLOne", "sub:Arctan",
@@ -212,10 +213,10 @@ def user_kernel(form, c):
                 Base.__init__(self, 1.0, -1.0)
             else:
                 Base.__init__(self, 1.0)
-            self.armed = False
+            self.vfh09_armed = False
 
         def forward(self, input):
-            if getattr(self, "armed", False):
+            if getattr(self, "vfh09_armed", False):
                 raise RuntimeError("user kernel callback raises (armed by the harness)")
             return rho(input)
 
@@ -228,13 +229,13 @@ class RetKernel(nn.Module):
 
     def __init__(self, how):
         super().__init__()
-        self.how = how
-        self.armed = False
+        self.vfh09_how = how
+        self.vfh09_armed = False
 
     def forward(self, input):
-        if self.armed:
+        if self.vfh09_armed:
             raise RuntimeError("user kernel callback raises (armed by the harness)")
-        return input if self.how == "ret-input" else input[...]
+        return input if self.vfh09_how == "ret-input" else input[...]
 
 
 PROP_ATTRS = {"huber": ("delta", "delta2"), "pseudohuber": ("delta2",), "cauchy": ("delta2",), "softlone": ("delta1", "delta2"),
@@ -248,16 +249,16 @@ def prop_kernel(kind, p):
 
     def getter(name):
         if name in ("delta", "delta1", "a"):
-            return lambda self: self._p[0]
+            return lambda self: self.vfh09_p[0]
         if name == "delta2":
-            return lambda self: self._p[0] ** 2
-        return lambda self: self._p[1]           # b
+            return lambda self: self.vfh09_p[0] ** 2
+        return lambda self: self.vfh09_p[1]           # b
 
     body = {name: property(getter(name)) for name in PROP_ATTRS[kind]}
 
     def __init__(self, *params):
         nn.Module.__init__(self)
-        self._p = list(params)
+        self.vfh09_p = list(params)
     body["__init__"] = __init__
     Cls_ = type(f"Prop{CLS[kind]}", (Base,), body)
     return Cls_(*(p[:2] if kind == "tolerant" else p[:1]))
@@ -1183,27 +1184,27 @@ class LinModel(nn.Module):
 
     def __init__(self, Ms, shapes, theta):
         super().__init__()
-        self.Ms, self.shapes = Ms, shapes
-        self.theta = nn.Parameter(theta.clone())
+        self.vfh09_Ms, self.vfh09_shapes = Ms, shapes
+        self.vfh09_theta = nn.Parameter(theta.clone())
 
     def forward(self, *ys):
-        if getattr(self, "ret_param", False):
-            return self.theta.view(1, -1)          # lesson 31: the model returns (a view of) its own parameter as the residual
-        outs = tuple((M @ self.theta + y).view(sh) for M, y, sh in zip(self.Ms, ys, self.shapes))
+        if getattr(self, "vfh09_ret_param", False):
+            return self.vfh09_theta.view(1, -1)          # lesson 31: the model returns (a view of) its own parameter as the residual
+        outs = tuple((M @ self.vfh09_theta + y).view(sh) for M, y, sh in zip(self.vfh09_Ms, ys, self.vfh09_shapes))
         return outs if len(outs) > 1 else outs[0]
 
 
 class Recorder(nn.Module):
     def __init__(self):
         super().__init__()
-        self.calls = []
-        self.raise_next = False
+        self.vfh09_calls = []
+        self.vfh09_raise_next = False
 
     def forward(self, A, b):
-        if self.raise_next:
-            self.raise_next = False
+        if self.vfh09_raise_next:
+            self.vfh09_raise_next = False
             raise RuntimeError("linear solver fails (injected by the harness)")
-        self.calls.append((A.detach().clone(), b.detach().clone()))
+        self.vfh09_calls.append((A.detach().clone(), b.detach().clone()))
         return torch.zeros(A.shape[-1], 1, dtype=A.dtype)
 
 
@@ -1249,7 +1250,7 @@ def weight_arg(case, shapes, dt):
 def build_opt(case, Ms, shapes, theta, kernel, corrector):
     import pypose as pp
     model = LinModel(Ms, shapes, theta)
-    model.ret_param = bool(case.get("identity_model"))
+    model.vfh09_ret_param = bool(case.get("identity_model"))
     rec = Recorder()
     wt = weight_arg(case, shapes, theta.dtype) if case.get("weight", {}).get("where") == "ctor" else None
     kw = {"vectorize": case.get("vectorize", True)}
@@ -1455,30 +1456,30 @@ def check_select(ctx: Ctx, case, pre=None):
             for t, new in zip(y, ys[1]):          # same list, same tensors, updated in place
                 t.copy_(new)
             with torch.no_grad():
-                model.theta.add_(dthetas[1])
+                model.vfh09_theta.add_(dthetas[1])
         else:
             y = [t.clone() for t in ys[step]]       # new tensors
             with torch.no_grad():
-                model.theta.mul_(0.5).sub_(dthetas[step])
+                model.vfh09_theta.mul_(0.5).sub_(dthetas[step])
                 for M in ([] if case.get("identity_model") else Ms):          # the model's own constants change in place too
                     M.mul_(1.25)
         y_before = [t.clone() for t in y]
-        theta0 = model.theta.detach().clone()
+        theta0 = model.vfh09_theta.detach().clone()
         dt = DT[dtn]
         wk = case["weight"]["w"] if case.get("weight") else [1.0] * nres
         # --- a step in which the linear solver raises (GN propagates, LM catches it): nothing may have changed afterwards,
         #     and the retried step below must equal the step of a history without the failed one (compared with fresh)
         if case.get("fail_step") == step and "-" not in sc:
-            n_before, st_before = len(rec.calls), {k: repr(v) for k, v in vars(opt).items() if k in ("reject", "reject_count", "sparse")}
-            rec.raise_next = True
+            n_before, st_before = len(rec.vfh09_calls), {k: repr(v) for k, v in vars(opt).items() if k in ("reject", "reject_count", "sparse")}
+            rec.vfh09_raise_next = True
             try:
                 do_step(case, opt, y, shapes, dt)
                 fr = None
             except Exception as e:
                 fr = type(e).__name__
-            rec.raise_next = False
+            rec.vfh09_raise_next = False
             ctx.count(f"select.solver-raises.{case['opt']}.{'propagated' if fr else 'caught'}")
-            if not torch.equal(model.theta.detach(), theta0) or any(not torch.equal(t, t0) for t, t0 in zip(y, y_before)) or len(rec.calls) != n_before:
+            if not torch.equal(model.vfh09_theta.detach(), theta0) or any(not torch.equal(t, t0) for t, t0 in zip(y, y_before)) or len(rec.vfh09_calls) != n_before:
                 ctx.fail({**clean(case), "step": step}, f"select-atomic: after a step whose solver raised ({fr or 'caught by LM'}) the parameters / inputs / "
                          f"solver history of {case['opt']} are not what they were before")
                 return
@@ -1489,11 +1490,11 @@ def check_select(ctx: Ctx, case, pre=None):
             try:
                 optc = copy.deepcopy(opt)
                 do_step(case, optc, [t.clone() for t in y], shapes, dt)
-                copy_sys = optc.solver.calls[-len(optc.solver.calls) + len(rec.calls)] if len(optc.solver.calls) > len(rec.calls) else None
+                copy_sys = optc.solver.vfh09_calls[-len(optc.solver.vfh09_calls) + len(rec.vfh09_calls)] if len(optc.solver.vfh09_calls) > len(rec.vfh09_calls) else None
             except Exception as e:
                 ctx.count(f"select.deepcopy-unsupported.{type(e).__name__}")      # observation only (scope rule)
                 copy_sys = None
-        ncalls = len(rec.calls)
+        ncalls = len(rec.vfh09_calls)
         try:
             loss = do_step(case, opt, y, shapes, dt)
             raised = None
@@ -1509,10 +1510,10 @@ def check_select(ctx: Ctx, case, pre=None):
         if any(not torch.equal(t, t0) for t, t0 in zip(y, y_before)):
             ctx.fail({**clean(case), "step": step}, f"select-mutates: {case['opt']}.step changed the caller's input tensors")
             return
-        if len(rec.calls) < ncalls + 1 or (case["opt"] == "GN" and len(rec.calls) != ncalls + 1):
-            ctx.disagree("select", case, f"solver called {len(rec.calls) - ncalls} times in one step")
+        if len(rec.vfh09_calls) < ncalls + 1 or (case["opt"] == "GN" and len(rec.vfh09_calls) != ncalls + 1):
+            ctx.disagree("select", case, f"solver called {len(rec.vfh09_calls) - ncalls} times in one step")
             return
-        A, b = rec.calls[ncalls]          # LM may retry with more damping: the right-hand side is the same
+        A, b = rec.vfh09_calls[ncalls]          # LM may retry with more damping: the right-hand side is the same
         if not (bool(torch.isfinite(A).all()) and bool(torch.isfinite(b).all()) and isinstance(loss, torch.Tensor) and bool(torch.isfinite(loss).all())):
             ctx.fail({**clean(case), "step": step}, f"select-finite: {case['opt']} hands a non-finite system / loss to the solver "
                      f"(kernel={case['karg']}, corrector={case['carg']}, loss={loss})")
@@ -1522,7 +1523,7 @@ def check_select(ctx: Ctx, case, pre=None):
             ctx.fail({**clean(case), "step": step}, f"select-copy: a deep copy of the {case['opt']} optimiser, stepped on the same data just before the "
                      f"original, handed its solver a different system (max |dA| {float((copy_sys[0] - A).abs().max()):.3e}, max |db| {float((copy_sys[1] - b).abs().max()):.3e})")
             return
-        if not torch.equal(model.theta.detach(), theta0):
+        if not torch.equal(model.vfh09_theta.detach(), theta0):
             ctx.fail({**clean(case), "step": step}, "select-atomic: a zero step changed the parameters")
             return
         # residuals and Jacobians of the linear model (exact by construction)
@@ -1569,7 +1570,7 @@ def check_select(ctx: Ctx, case, pre=None):
                 kp2, k2, c2 = select_objects(case)
                 m2, o2, r2 = build_opt(case, [M.clone() for M in Ms], shapes, theta0.clone(), k2, c2)
                 l2 = do_step(case, o2, [t.clone() for t in y], shapes, dt)
-                A2, b2 = r2.calls[0]
+                A2, b2 = r2.vfh09_calls[0]
                 if case["opt"] == "GN":
                     A2, b2 = A2 / roww[:, None], b2 / roww[:, None]
                 # (LM with an adaptive strategy legitimately carries its damping from step to step: only b is history-free there)
@@ -1637,11 +1638,26 @@ def check_select(ctx: Ctx, case, pre=None):
                 ctx.count(f"select.step-vs-model.{case['opt']}")
                 unweighted = all(w == 1.0 for w in wk)
                 if unweighted or case["opt"] == "GN":
-                    if not all_within(np.abs(got - np.array(sv[1:], dtype=np.longdouble)), tol):
+                    if not all_within(np.abs(got - np.array(sv[1:1 + case["p"]], dtype=np.longdouble)), tol):
                         mismatch(ctx, "step", {**clean(case), "step": step}, f"{case['opt']}: J'^T R' handed to the solver {got.astype(float).tolist()} != "
-                                 f"model stepJtR {sv[1:]} (kernel={case['karg']}, corrector={case['carg']})")
+                                 f"model stepJtR {sv[1:1 + case['p']]} (kernel={case['karg']}, corrector={case['carg']})")
                         broken = True
                 step_loss_model = sv[0]
+                # pass 10: the stacked J'^T J' of the model (stepJtJ) against the normal matrix of the system GN hands to its solver
+                # (LM's recorded A is already clamped and damped — C08's business — so only GN is compared here)
+                pcols = case["p"]
+                if case["opt"] == "GN" and len(sv) == 1 + pcols + pcols * pcols:
+                    An = ld(A)
+                    ampr_ = np.concatenate([np.repeat(np.array([item_amp(kinds[j]["spec"], float(x_)) for x_ in Rs[j].double().square().sum(-1).flatten().tolist()]),
+                                                      shapes[j][1]) for j in range(nres)]).astype(np.longdouble)
+                    Hgot = An.T @ An
+                    Hsc = np.abs(An).T @ (ampr_[:, None] * np.abs(An))
+                    Hmod = np.array(sv[1 + pcols:], dtype=np.longdouble).reshape(pcols, pcols)
+                    ctx.count("select.stepJtJ-vs-model.GN")
+                    if not all_within(np.abs(Hgot - Hmod), TOLK * 2 * eps * Hsc + 16 * TINY[dtn]):
+                        mismatch(ctx, "step", {**clean(case), "step": step}, f"GN: J'^T J' of the system handed to the solver {Hgot.astype(float).tolist()} != "
+                                 f"model stepJtJ {Hmod.astype(float).tolist()} (kernel={case['karg']}, corrector={case['carg']})")
+                        broken = True
             if case["opt"] == "LM" and not all_within(np.abs(got - tot_cmp), tol):
                 mismatch(ctx, "select", {**clean(case), "step": step}, f"LM right-hand side {got.astype(float).tolist()} != model J'^T R' "
                                                                        f"{tot.astype(float).tolist()} (selection {sc})")
@@ -1669,7 +1685,7 @@ def check_select(ctx: Ctx, case, pre=None):
                 with torch.enable_grad():
                     la = step_args(case, y, shapes, dt)
                     L = opt.model.loss(la["input"], la.get("target"))
-                    g, = torch.autograd.grad(L, model.theta)
+                    g, = torch.autograd.grad(L, model.vfh09_theta)
             except Exception as e:
                 ctx.fail({**clean(case), "step": step}, f"select-oracle-raises: loss / autograd raises {type(e).__name__}: {str(e)[:160]}")
                 return
@@ -1913,10 +1929,10 @@ def pub_state(obj):
     """public attribute snapshot of a kernel / corrector (values by repr; sub-objects by identity)"""
     out = {}
     for k, v in vars(obj).items():
-        if k.startswith("_"):
+        if k.startswith("_") or k.startswith("vfh09_"):          # private state / the harness' own attributes (prefix vfh09_, lesson 48)
             continue
         out[k] = repr(v) if isinstance(v, (int, float, bool, str, tuple, type(None))) else ("obj", id(v))
-    out["#keys"] = tuple(sorted(k for k in vars(obj) if not k.startswith("_")))
+    out["#keys"] = tuple(sorted(k for k in vars(obj) if not k.startswith("_") and not k.startswith("vfh09_")))
     return out
 
 
@@ -2018,9 +2034,9 @@ def check_history(ctx: Ctx, case, lines=None, metas=None):
         cc = {**clean(case), "call": ci}
         O = get_obj(call.get("obj", 0))
         which, spec, obj, kobj = O["which"], O["spec"], O["obj"], O["kobj"]
-        if call.get("kparams") is not None and hasattr(kobj, "_p"):
+        if call.get("kparams") is not None and hasattr(kobj, "vfh09_p"):
             # the caller changes the private state behind the kernel's parameter properties: every later call must follow it
-            kobj._p = list(call["kparams"][:len(kobj._p)])
+            kobj.vfh09_p = list(call["kparams"][:len(kobj.vfh09_p)])
             O["spec"] = spec = {**spec, "p": list(call["kparams"])}
         dtn = call["dtype"]
         eps = EPSD[dtn]
@@ -2040,8 +2056,8 @@ def check_history(ctx: Ctx, case, lines=None, metas=None):
                 flat = bad[0].reshape(-1)
                 flat[rng.randrange(flat.numel())] = -abs(float(own_scale(spec))) * 0.3 - 1e-3
                 how = "negative"
-            elif spec["kind"] == "poly" and hasattr(kobj, "armed"):
-                kobj.armed = True
+            elif spec["kind"] == "poly" and hasattr(kobj, "vfh09_armed"):
+                kobj.vfh09_armed = True
                 how = "callback"
             elif which == "fast":
                 how = "inference"
@@ -2054,7 +2070,7 @@ def check_history(ctx: Ctx, case, lines=None, metas=None):
                 raised = True
             finally:
                 if how == "callback":
-                    kobj.armed = False
+                    kobj.vfh09_armed = False
             ctx.count(f"history.failing-call.{how}.{'raised' if raised else 'accepted'}")
             if how == "negative" and not raised:
                 ctx.fail(cc, f"negative-accepted: {spec['kind']}{spec['p']} accepts a tensor with a negative element in the middle of a history")
@@ -2299,7 +2315,7 @@ def run_history(ctx: Ctx, cases):
             ctx.count(f"history.dtype.{c['dtype']}")
             ctx.count(f"history.gmode.{c.get('gmode', 'no_grad' if c.get('nograd') else 'plain')}")
             ctx.count(f"history.call-syntax.{'keyword' if c.get('kw', True) else 'positional'}")
-        ctx.count("history.calls-to-model", len(lines) - n0)
+        ctx.count("history.vfh09_calls-to-model", len(lines) - n0)
     reps = ctx.driver.run(lines)
     for rep, meta in zip(reps, metas):
         if len(meta) == 3:
